@@ -63,7 +63,7 @@ let obs_str (c : string) (o : obs) : string =
     | BNoFile -> " nofile"
     | BAbsent -> " absent"
     | BFailed -> " failed"
-    | BRan t -> if c = "T" then " ran" else Printf.sprintf " run G%d" (int_of_n t) in
+    | BRan t -> if c = "T" then " loaded" else Printf.sprintf " run G%d" (int_of_n t) in
   c ^ body
 let err_str (e : err) : string =
   match e with
